@@ -183,6 +183,7 @@ var csvKinds = []csvKind{
 	{"Int | Boolean", []string{"1", "true", "2", "false"}, []string{"Int", "Boolean"}},
 	{"Float | Boolean | Time", []string{"1.5", "true", "2020-01-02T03:04:05Z"}, []string{"Float", "Boolean", "Time"}},
 	{"Int | Float | Time", []string{"1", "2020-01-02T03:04:05Z", "2.5"}, []string{"Int", "Float", "Time"}},
+	{"NULL", []string{""}, nil}, // empty in every previewed row: the column's type is exactly NULL
 }
 
 // late cell shapes; SHORT / LONG are row shapes
@@ -207,7 +208,7 @@ func csvTextKind(s string) string {
 // does the late cell fit a column of that kind (so that the row has to be produced)?
 func csvFits(kind csvKind, nullable bool, cell string) bool {
 	if cell == "" {
-		return nullable
+		return nullable || len(kind.accepts) == 0
 	}
 	k := csvTextKind(cell)
 	for _, a := range kind.accepts {
@@ -304,6 +305,10 @@ func csvMatrix(cf *lib.CaseFile, seed int64, dir string, tier string) (cliFiles 
 					fail(w)
 					continue
 				}
+				if w := nonEmptyCellsNotNull(rows, recs, []int{0, 1, 2}, "full read"); w != "" {
+					fail(w)
+					continue
+				}
 				fits := shape != "SHORT" && shape != "LONG" && csvFits(kind, nullable, shape)
 				if fits && rerr != nil {
 					fail(fmt.Sprintf("late cell %q fits the %s column (nullable=%v) but the run failed: %v", shape, kind.name, nullable, rerr))
@@ -334,6 +339,10 @@ func csvMatrix(cf *lib.CaseFile, seed int64, dir string, tier string) (cliFiles 
 						fail(what + ": " + w)
 						break
 					}
+					if w := nonEmptyCellsNotNull(rows, precs, keep, what); w != "" {
+						fail(w)
+						break
+					}
 				}
 				if !nullable && (shape == "" || shape == "SHORT" || shape == "abc") && (tier == "thorough" || (idx+int(seed))%2 == 0) {
 					keep := path + ".cli.csv"
@@ -346,6 +355,18 @@ func csvMatrix(cf *lib.CaseFile, seed int64, dir string, tier string) (cliFiles 
 	}
 	cf.Side.Distribution["csv_matrix_cells_covered"] = fmt.Sprintf("%d of %d (column kinds %d x nullable 2 x late shapes %d)", covered, len(csvKinds)*2*len(csvShapes), len(csvKinds), len(csvShapes))
 	return
+}
+
+// a row that is produced carries the values it contains: a non-empty cell never comes out as NULL
+func nonEmptyCellsNotNull(rows [][]string, recs [][]octosql.Value, keep []int, what string) string {
+	for i := 0; i < len(recs) && i < len(rows); i++ {
+		for a, j := range keep {
+			if j < len(rows[i]) && a < len(recs[i]) && rows[i][j] != "" && recs[i][a].TypeID == octosql.TypeIDNull {
+				return fmt.Sprintf("%s: row %d: the non-empty cell %q was produced as NULL", what, i, rows[i][j])
+			}
+		}
+	}
+	return ""
 }
 
 func fieldNames(fs []physical.SchemaField) []string {
